@@ -372,12 +372,98 @@ namespace verif
         return Verdict::pass();
     }
 
+    // A fire-and-forget chain: source.then(A -> a promise that is still pending, h).then(B, Throw).then(C, rejC), where the
+    // program keeps neither the derived promises nor - once A has run - the source or anything that could settle it.
+    // The only thing still held is the Deferred of the promise A returned.  Settling that must reach B and C (or, on
+    // rejection, the rethrow handler and rejC with the same exception) exactly once: who keeps a promise alive is the
+    // library's business, not the caller's.  (Decided by a hash of the case's bytes; no choice consumed.)
+    Verdict forgotten_chain(const uint8_t* data, size_t size, Report& rep)
+    {
+        uint64_t h        = fnv1a(data, size, 0xf02907);
+        bool fulfil       = h % 2 == 0;
+        bool src_settled_first = (h >> 1) % 2 == 0; // the source is already fulfilled when the chain is attached
+        struct Counts
+        {
+            int A = 0, B = 0, C = 0, rejC = 0, hA = 0, bval = 0, cval = 0, rej_id = 0;
+        };
+        auto cnt = std::make_shared<Counts>();
+        auto inner_def = std::make_shared<Async::Deferred<int>>();
+        std::string desc = std::string("forgotten chain: source ") + (src_settled_first ? "fulfilled before" : "fulfilled after") + " the chain is attached, then released with every handle to it; the promise returned by the first continuation is then "
+            + (fulfil ? "fulfilled with 15" : "rejected with e7");
+        auto attach = [&](Async::Promise<int>& source) {
+            source.then([cnt, inner_def](int) {
+                      ++cnt->A;
+                      return Async::Promise<int>([inner_def](Async::Deferred<int> d) { *inner_def = std::move(d); });
+                  },
+                        [cnt](std::exception_ptr) { ++cnt->hA; })
+                .then([cnt](int v) { ++cnt->B; cnt->bval = v; return v + 1; }, Async::Throw)
+                .then([cnt](int v) { ++cnt->C; cnt->cval = v; },
+                      [cnt](std::exception_ptr e) {
+                          ++cnt->rejC;
+                          try
+                          {
+                              std::rethrow_exception(e);
+                          }
+                          catch (const TestExc& t)
+                          {
+                              cnt->rej_id = t.id;
+                          }
+                          catch (...)
+                          {
+                              cnt->rej_id = -1;
+                          }
+                      });
+        };
+        try
+        {
+            if (src_settled_first)
+            {
+                auto source = Async::Promise<int>::resolved(20);
+                attach(source);
+            }
+            else
+            {
+                Async::Deferred<int> src_def;
+                {
+                    Async::Promise<int> source([&](Async::Deferred<int> d) { src_def = std::move(d); });
+                    attach(source);
+                    src_def.resolve(20);
+                } // the source promise goes
+            } // ... and the last handle that could settle it
+            V_CHECK(cnt->A == 1, "C11/forgotten-chain/first-continuation", desc + ": the first continuation ran " + std::to_string(cnt->A) + " times");
+            if (fulfil)
+                inner_def->resolve(15);
+            else
+                inner_def->reject(TestExc { 7 });
+        }
+        catch (const std::exception& e)
+        {
+            return Verdict::fail("C11/forgotten-chain/throws", desc + ": " + e.what());
+        }
+        rep.label("forgotten-chain");
+        if (fulfil)
+        {
+            V_CHECK(cnt->B == 1 && cnt->bval == 15, "C11/forgotten-chain/continuation-not-run", desc + ": the continuation on the derived promise ran " + std::to_string(cnt->B) + " times (value " + std::to_string(cnt->bval) + ")");
+            V_CHECK(cnt->C == 1 && cnt->cval == 16, "C11/forgotten-chain/continuation-not-run", desc + ": the continuation two links down ran " + std::to_string(cnt->C) + " times (value " + std::to_string(cnt->cval) + ")");
+            V_CHECK(cnt->rejC == 0 && cnt->hA == 0, "C11/forgotten-chain/rejection-on-fulfilment", desc + ": a rejection continuation ran");
+        }
+        else
+        {
+            V_CHECK(cnt->B == 0 && cnt->C == 0, "C11/forgotten-chain/fulfilment-on-rejection", desc + ": a fulfilment continuation ran");
+            V_CHECK(cnt->rejC == 1 && cnt->rej_id == 7, "C11/forgotten-chain/rejection-not-forwarded", desc + ": the rejection continuation at the end of the chain ran " + std::to_string(cnt->rejC) + " times (exception id " + std::to_string(cnt->rej_id) + ")");
+        }
+        return Verdict::pass();
+    }
+
     Verdict run_case(const uint8_t* data, size_t size, Report& rep)
     {
         {
             Verdict sv = string_observers(data, size, rep);
             if (sv.kind != Verdict::Pass)
                 return sv;
+            Verdict fv = forgotten_chain(data, size, rep);
+            if (fv.kind != Verdict::Pass)
+                return fv;
         }
         Choices c(data, size);
         World W;
